@@ -277,6 +277,17 @@ func init() {
 					toMax = s
 				}
 			}
+			// the decayed weight stored first and a clamp helper applied to the stored value afterwards: two stores, the
+			// second one of the joined form below (its innermost value is the first store's, read back)
+			if decay != nil && toMin == nil && toMax == nil && len(sts) == 2 {
+				other := sts[0]
+				if other == decay {
+					other = sts[1]
+				}
+				if fa.Term(other.Val).Op == "phi" && fa.Dominates(decay, other) {
+					sts, decay = []*ssa.Store{other}, nil
+				}
+			}
 			if decay == nil && len(sts) == 1 {
 				// the same computation on a local value (the shape an extracted helper has): one store of
 				// phi(phi(decayed, Min), Max), each bound taken on the edge that the comparison guards
